@@ -339,7 +339,9 @@ def main(argv=None):
                     if e6 is not None:
                         continue
                     fdp = dl.get_comparam("CP_CANFDTxMaxDataLength", protocol=pn)
-                    want_fd = rx is not None and fdp is not None and "CANFD" in fdp.value
+                    # (the effective value: the instance's own, else the default of the parameter specification)
+                    fdv = None if fdp is None else (fdp.value or dict(hc.SIMPLE_CPS)["CP_CANFDTxMaxDataLength"])
+                    want_fd = rx is not None and fdp is not None and "CANFD" in fdv
                     got_fd, e7, _ = cc.guarded(lambda: dl.uses_can_fd(protocol=pn))
                     if e7 is None and got_fd != want_fd:
                         bad = f"L{i}.uses_can_fd(protocol={pn}) = {got_fd}, the parameters of that protocol say {want_fd}"
@@ -348,13 +350,13 @@ def main(argv=None):
                     if e9 is None and got_can != (rx is not None):
                         bad = f"L{i}.uses_can(protocol={pn}) = {got_can} although the CAN receive id of that protocol is {rx}"
                         break
-                    if fdp is not None and isinstance(fdp.value, str):
+                    if fdp is not None and isinstance(fdv, str):
                         import re as _re
-                        m_ = _re.search("TX_DL *= *([0-9]+)", fdp.value)
+                        m_ = _re.search("TX_DL *= *([0-9]+)", fdv)
                         got_sz, e10, _ = cc.guarded(lambda: dl.get_max_can_payload_size(protocol=pn))
                         if m_ and (e10 is not None or got_sz != int(m_.group(1))):
                             bad = (f"L{i}.get_max_can_payload_size(protocol={pn}) = {got_sz if e10 is None else type(e10).__name__}, the "
-                                   f"numeric content of CP_CANFDTxMaxDataLength {fdp.value!r} is {int(m_.group(1))}")
+                                   f"numeric content of CP_CANFDTxMaxDataLength {fdv!r} is {int(m_.group(1))}")
                             break
                     if fdp is None:
                         got_sz, e10, _ = cc.guarded(lambda: dl.get_max_can_payload_size(protocol=pn))
